@@ -389,8 +389,13 @@ def process_stream(ctx, orc, progs, stats):
     rng.shuffle(pick)
     # always: sources without a .<cpu> directive (file_write used to index cpu_list[-1]) and a forward conditional
     forced = [("forced:no-cpu", ".org 0x20\n  .db 1, 2, 3\nlab:\n  mov.w #lab, r5\n", [], {"no-cpu"}),
-              ("forced:leftover", ".msp430\n.ifndef later\n  .db 0xaa, 0xbb\n.endif\n.org 0x10\nlater:\n  .db 1\n", [], {"x"})]
-    pick = forced + pick[:ctx.scale(22, 160)]
+              ("forced:leftover", ".msp430\n.ifndef later\n  .db 0xaa, 0xbb\n.endif\n.org 0x10\nlater:\n  .db 1\n", [], {"x"}),
+              # 64 KiB pages touched in another order than their addresses (the page list is in order of first touch;
+              # a writer that walks it must not assume ascending addresses)
+              ("forced:pages-descending", ".msp430\n.org 0x12000\n  .db 0x11, 0x22, 0x33\n.org 0x0100\nstart:\n  mov.w #start, r5\n  .db 1, 2, 3\n", [], {"x"}),
+              ("forced:pages-middle-first", ".z80\n.org 0x18000\n  .db 0x55, 0x66\n.org 0x29000\n  .db 0x77\n.org 0x0040\n  .db 9, 8, 7, 6\n.org 0x10010\n  .db 0xaa\n", [], {"x"}),
+              ("forced:pages-descending-code", ".68000\n.org 0x30000\nhigh:\n  moveq #1, d0\n  rts\n.org 0x1000\n  bsr low\nlow:\n  rts\n  .dc32 high\n", [], {"x"})]
+    pick = forced + pick[:ctx.scale(22, 160)]      # the forced programs run in every tier
     ref_lines = [prog_line("", 0, src) for _, src, _, _ in pick]
     refs = ctx.impl(ref_lines)
     jobs = []
